@@ -250,11 +250,15 @@ func (s *Solver) Values(ts []*Term) ([]string, error) {
 			res[i] = s.P.constStr(t)
 			continue
 		}
-		if !s.P.IsEmitted(t) {
+		if !s.P.IsEmitted(t) && t.Op == OVar && t.Sort.K == KInt && s.P.Enc == EncInt {
+			// an undeclared variable is unconstrained; its declaration would add a range assertion
 			res[i] = ""
 			continue
 		}
 		r := s.P.Ref(t)
+		if defs := s.P.Take(); defs != "" {
+			s.send(defs)
+		}
 		s.send("(get-value (" + r + "))\n")
 		v, err := s.readSexp()
 		if err != nil {
